@@ -36,11 +36,11 @@ dt = st.sampled_from([0.01, 0.1, 0.5, 0.9, 1.0, 1.1, 2.0, 5.0, 9.99, 10.0,
 autofeed = st.sampled_from([True, True, True, False])
 
 
-def op_apply(limits=False, lost=False, unpicklable=False):
+def op_apply(limits=False, lost=False, unpicklable=False, soft=None, hard=None):
     opts = {}
     if limits:
-        opts['soft'] = lim
-        opts['hard'] = lim
+        opts['soft'] = soft if soft is not None else lim
+        opts['hard'] = hard if hard is not None else lim
     if lost:
         opts['lost'] = st.sampled_from([None, 0.5, 2.0, 30.0])
     if unpicklable:
@@ -71,6 +71,10 @@ worker_ops = [
     st.tuples(st.just('deliver'), k).map(list),
 ]
 work = st.tuples(st.just('work'), k).map(list)
+run = st.tuples(st.just('run'), k).map(list)
+adv_lim = st.tuples(st.just('adv'), st.sampled_from(
+    [0.99, 1.0, 1.01, 1.99, 2.0, 2.01, 3.0, 4.99, 5.0, 5.01, 9.99, 10.0, 10.01,
+     19.99, 20.0, 20.01])).map(list)
 dier = st.tuples(st.just('die'), k, status, st.just(True)).map(list)
 feed = st.tuples(st.just('feed')).map(list)
 feed_fault = st.tuples(st.just('feed'), st.one_of(st.none(), st.integers(0, 3)),
@@ -93,14 +97,15 @@ join = st.just(['join'])
 
 
 def config(procs=(1, 4), threads=None, maxtasks=False, limits=False,
-           putlocks=None, lost=False, restarts=False, pgleader=False):
+           putlocks=None, lost=False, restarts=False, pgleader=False,
+           soft=None, hard=None):
     d = {'procs': st.integers(*procs)}
     d['threads'] = st.booleans() if threads is None else st.just(threads)
     if maxtasks:
         d['maxtasks'] = st.sampled_from([None, None, 1, 2, 3])
     if limits:
-        d['timeout'] = lim
-        d['soft'] = lim
+        d['timeout'] = hard if hard is not None else lim
+        d['soft'] = soft if soft is not None else lim
     if putlocks is None:
         d['putlocks'] = st.booleans()
     else:
